@@ -6,12 +6,13 @@ WT=/tmp/seedverify_$ID
 rm -rf "$WT"; git -C /repo worktree prune
 /verif/lib/mkworktree.sh "$WT" > /tmp/seedverify_$ID.base 2>&1
 BASE_TESTS=$(grep -c "PASS:  12" /tmp/seedverify_$ID.base)
-sed "s#/tmp/seed_$ID#$WT#g" "$W/demo.c" > /tmp/seedverify_$ID.demo.c
-run_demo() { gcc -I"$WT"/API/Headers /tmp/seedverify_$ID.demo.c "$WT"/API/Sources/.libs/libecbufr.a -lm -o /tmp/seedverify_$ID.bin 2>/tmp/seedverify_$ID.cc && /tmp/seedverify_$ID.bin > /tmp/seedverify_$ID.out 2>&1; echo $?; }
+rm -rf /tmp/seedverify_$ID.w; cp -r "$W" /tmp/seedverify_$ID.w
+for f in /tmp/seedverify_$ID.w/*.c /tmp/seedverify_$ID.w/*.sh; do [ -f "$f" ] && sed -i "s#/tmp/seed_work_$ID#/tmp/seedverify_$ID.w#g; s#/tmp/seed_$ID#$WT#g" "$f"; done
+run_demo() { (cd /tmp/seedverify_$ID.w && sh run_demo.sh "$WT" > /tmp/seedverify_$ID.out 2>&1); echo $?; }
 D0=$(run_demo)
 git -C "$WT" apply "$W/patch.diff"; AP=$?
 (cd "$WT" && make -j8 > /tmp/seedverify_$ID.make 2>&1); MK=$?
 T1=$(cd "$WT" && make -k check 2>&1 | grep -E "^# (PASS|FAIL)" | tr -d ' \n')
 D1=$(run_demo)
 echo "{\"id\":\"$ID\",\"baseline_tests_12\":$BASE_TESTS,\"demo_exit_baseline\":$D0,\"patch_applies\":$AP,\"make_exit\":$MK,\"tests_with_patch\":\"$T1\",\"demo_exit_with_patch\":$D1}"
-git -C /repo worktree remove --force "$WT"
+git -C /repo worktree remove --force "$WT"; rm -rf /tmp/seedverify_$ID.w
